@@ -52,6 +52,21 @@ func unhex(s string) []byte {
 func decodeD(t *model.Type, b []byte) (*dynamicpb.Message, error) {
 	d := t.NewD()
 	err := proto.UnmarshalOptions{AllowPartial: true}.Unmarshal(b, d)
+	if err == nil && model.HasRequired(t.Desc) {
+		// a value with an unset required field (proto2 types embedded in a proto3
+		// schema) is not a value the properties quantify over: only C10's checkinit
+		// sub looks at those (decodePartialD)
+		if e := proto.CheckInitialized(d); e != nil {
+			return d, fmt.Errorf("partial value: %w", e)
+		}
+	}
+	return d, err
+}
+
+// decodePartialD is decodeD without the initialisation test.
+func decodePartialD(t *model.Type, b []byte) (*dynamicpb.Message, error) {
+	d := t.NewD()
+	err := proto.UnmarshalOptions{AllowPartial: true}.Unmarshal(b, d)
 	return d, err
 }
 
@@ -105,3 +120,11 @@ func (c *Ctx) genTypeStream(rt *rapid.T, t *model.Type, unknown, canonical bool)
 }
 
 func onlyType() string { return envStr("VERIF_ONLY_TYPE") }
+
+// requiredErr reports whether err is protobuf-go's complaint about an unset
+// required field. Messages of proto2 types with required fields (embedded in
+// proto3 schemas) cannot be marshalled while empty; where a check asserts that
+// marshalling succeeds, that outcome is the reference's too and is only counted.
+func requiredErr(err error) bool {
+	return err != nil && strings.Contains(err.Error(), "required field")
+}
